@@ -505,11 +505,12 @@ class Gen:
         rng = self.rng
         if self.consts is not None:
             r = rng.random()
-            if self.sweep and r < 0.8:
-                return self.int_request(self.sweep.pop(0))
-            if r < 0.85:
+            if self.sweep:
+                if r < 0.8:
+                    return self.int_request(self.sweep.pop(0))
+            elif r < 0.25:
                 return self.real_request(rng.choice(self.consts))
-            if r < 0.9:
+            elif r < 0.4:
                 return self.int_request(rng.choice(self.consts))
         r = rng.random()
         if r < 0.03 and self.pool["num"]:
@@ -606,7 +607,7 @@ def normalisation_violations(c, n, nodes):
             if n.node_type.name != opn.upper() or len(n.args) != len(args):
                 bad.append("%s of %d arguments is not an %s node with these arguments" % (opn, len(args), opn.upper()))
             elif any(arg_matches(a, ch, nodes) is False for a, ch in zip(args, n.args)):
-                bad.append("%s: an argument was not promoted to its canonical constant / node" % opn)
+                bad.append("%s: an argument was not promoted to its canonical constant / node (built: %s)" % (opn, n))
     elif k == "not":
         a = c[1]
         if a[0] == "node" and nodes[a[1]].is_not():
@@ -621,8 +622,8 @@ def normalisation_violations(c, n, nodes):
         if n.node_type.name != want_type or len(n.args) != 2:
             bad.append("%s is not a %s node" % (opn, want_type))
         elif arg_matches(first, n.arg(0), nodes) is False or arg_matches(second, n.arg(1), nodes) is False:
-            bad.append("%s(a, b): children are not (%s) with canonical constants" % (
-                opn, "b, a" if opn in ("GE", "GT") else "a, b"))
+            bad.append("%s(a, b): children are not (%s) with canonical constants (built: %s)" % (
+                opn, "b, a" if opn in ("GE", "GT") else "a, b", n))
     elif k == "Int":
         if not (n.is_int_constant() and type(n._content.payload) is int and n._content.payload == c[1] and not n.args):
             bad.append("Int(%d) is not the Int constant %d but %s" % (c[1], c[1], n))
